@@ -4,6 +4,7 @@ from vlib import *
 import heapfam
 import jsonfam
 import viewfam
+import asyncfam
 
 
 def heap_run(prop, tier, seed, scratch):
@@ -121,5 +122,15 @@ REGISTRY["C12"] = dict(run=viewfam.run_c12, replay=doc_replay, level="model_chec
                        technique="TLA+ conversion table (Convert.tla, NormalFormLaw) enumerated by TLC; every triple executed on the real entry points with exhaustive / sampled class members")
 ENGINES[-1]["serves_properties"].append("C12")
 ENGINES[-1]["path"] += " spec/Convert.tla harness/cmd/vh/convert.go"
+
+REGISTRY["C15"] = dict(run=asyncfam.run_c15, replay=asyncfam.async_replay, level="model_checking", engine="tlc-async",
+                       assumptions=["TLC explores Async.tla exhaustively for N <= 3 (quick) / 4 (thorough) workers; larger sizes only through recorded free-running executions",
+                                    "schedule enforcement relies on the build-tagged verifGate hook and on blocking callbacks; a schedule the implementation cannot follow is counted as infeasible, never as a violation",
+                                    "data races are those the Go race detector observes on the executed paths; GOMAXPROCS in {1,2,16} (free runs: 1,2,3,4,7,16)"],
+                       level_text="The fork/join protocol is model-checked (safety, termination, refinement of the observable spec, four seeded protocol mistakes refuted); every observable interleaving for small N is enforced on the real goroutines in a race build, executions of sizes up to 257 are recorded and validated by TLC against AsyncObs, and all pairs/triples of read-only methods run concurrently on shared containers.",
+                       level_note="Exhaustive over interleavings of observable events for N<=3/4; race freedom is checked dynamically on those executions. Trusted: TLC, the Go race detector, the gate mechanism.",
+                       technique="TLA+ fork/join protocol (Async.tla) model-checked by TLC; TLC-enumerated schedules enforced on real goroutines (race build); recorded executions validated by TLC trace validation (AsyncTrace.tla)")
+ENGINES.append({"name": "tlc-async", "path": "spec/Async.tla spec/AsyncObs.tla spec/AsyncTrace.tla bin/asyncfam.py harness/cmd/vh/async.go", "serves_properties": ["C15"],
+                "kind_free_text": "TLA+ model of the WaitGroup/mutex protocol, checked by TLC; schedule enumeration + enforcement through gates; trace validation of recorded executions"})
 
 PENDING = {}
